@@ -2004,6 +2004,21 @@ def _range(interp, args, kw, node):
 BUILTINS['xrange'] = BUILTINS['range']
 
 
+@_b('reversed')
+def _reversed(interp, args, kw, node):
+    """reversed(seq): the elements last to first (T6); concrete sequences are reversed eagerly, symbolic ones get r[q] = s[len-1-q]"""
+    v = args[0]
+    if isinstance(v, (tuple, list)):
+        return ListIter(list(reversed(v)))
+    if isinstance(v, PyList):
+        return ListIter(list(reversed(v.items)))
+    s = v if isinstance(v, Seq) else view_seq(v)
+    arr = smt.fresh_arr('reversed')
+    q = smt.fresh_int('q')
+    emit(z3.ForAll([q], z3.Implies(z3.And(0 <= q, q < s.len), z3.Select(arr, q) == z3.Select(s.arr, s.len - 1 - q)), patterns=[z3.Select(arr, q)]))
+    return SrcIter(arr, s.len, 'reversed', origin='Fresh')
+
+
 @_b('enumerate')
 def _enumerate(interp, args, kw, node):
     it = get_iter(interp, args[0], node)
